@@ -26,6 +26,7 @@ def spaces(tier, seed):
         sp.append(('n4-orders012', dict(n=4, orders=(0, 1, 2), names='AB', relabel=('id', 'offset', 'revins'))))
         sp.append(('n4-orders1234', dict(n=4, orders=(1, 3, 4), names='A', relabel=('id', 'strings'))))
         sp.append(('n5-orders12', dict(n=5, orders=(1, 2), names='ABCDE', relabel=('id', 'revins'), max_nonsingle=2)))
+        sp.append(('n5-orders013', dict(n=5, orders=(0, 1, 3), names='ABCDE', relabel=('id',), max_nonsingle=2)))
     else:
         sp.append(('n4-orders01234', dict(n=4, orders=(0, 1, 2, 3, 4), names='AB', relabel=('id', 'offset', 'revins'))))
         sp.append(('n5-orders012', dict(n=5, orders=(0, 1, 2), names='ABCDE', relabel=('id', 'offset', 'revins'), max_nonsingle=3)))
